@@ -201,6 +201,22 @@ class UnitBuild:
         if not cfg.get("no_canary"):
             self.emit_canary(sig, spec, key, out_impl)
 
+    def emit_synth(self, key: str, name: str, sig: str, body: str, rel: str, line: int, cfg: Optional[dict] = None, note: str = ""):
+        """engine VA: a synthesized micro-function around real text (an arm body / closure body) with the contract `key`"""
+        cfg = cfg or {}
+        spec = self.specs.get(key)
+        if spec is None:
+            raise AnchorError(f"no contract for {key}")
+        sig = self.name_return(sig, spec.returns)
+        body2, counts = self.rewrite_body(body, cfg)
+        body2 = self.inject(body2, spec)
+        contract = self.clauses(spec)
+        text = f"{spec.attrs}pub {sig}\n{contract}{body2}\n"
+        s, e = self.out(f"// @@FN verify {key}  <- {rel}:{line} ({note or 'synthesized around verbatim arm text'})\n" + text)
+        self.emitted.append(Emitted(name, "verify", rel, line, s, e, contract=contract, rewrites=dict(counts, VA=1), sha256=_sha(body)))
+        if not cfg.get("no_canary"):
+            self.emit_canary(sig, spec, name, None)
+
     def emit_assumed(self, key: str):
         """a function that has no source text of its own (R8 carve-out): signature and contract come from the spec file"""
         spec = self.specs[key]
